@@ -636,6 +636,281 @@ def interp_range(f, lk, le, rk, re_, l, r, rel, rempty):
 
 
 # ---------------------------------------------------------------------------
+# R-FLT: the endpoint filter of a value entry, as a decision table
+# ---------------------------------------------------------------------------
+
+def rule_flt(S):
+    facts = S.facts()
+    S.rule('R-FLT', 'scan_border<V>, entry that fits its slice (the value path): abstract execution from the definition of '
+                    'the pushing closure to its call (deliver), the loop latch (skip) or `return OK_SCAN_END` (the range '
+                    'ended), over every combination of {INF, INCLUSIVE, EXCLUSIVE}^2 x sign of the left slice comparison x '
+                    'l_key.size() vs the entry length x sign of the right key comparison x r_key.size() vs the entry\'s key '
+                    'size (486 consistent rows): the outcome equals the bytewise-lexicographic reference (zero-padded '
+                    'slices equal: the shorter key sorts first): left: deliver iff key > l (EXCLUSIVE) / key >= l '
+                    '(INCLUSIVE); right: deliver iff key < r / key <= r, end otherwise')
+    from yk.flow import dominators
+    agg = {}
+    for f in sorted([g for g in facts.by_qname('yakushima::scan_border') if not g.is_lambda], key=lambda x: x.fid):
+        prs = pairs_of(f)
+        if len(prs) != 2:
+            raise AnalysisBroken('R-FLT: scan_border does not take two (key, endpoint) pairs')
+        (_, lk, le), (_, rk, re_) = prs
+        res = [p['id'] for p in f.params if 'std::vector<std::tuple<' in p['type']]
+        if len(res) != 1:
+            raise AnalysisBroken('R-FLT: result list of scan_border not identified')
+        res = res[0]
+        # the pushing closure and the block that defines it
+        push_lams = set()
+        for g in facts.lambdas_of(f):
+            if any(n['k'] in CALL_KINDS and n.get('cn') in ('emplace_back', 'push_back') and
+                   root_var(g, call_recv(g, n)) == res for n in g.all_nodes()):
+                push_lams.add(g.fid)
+        start = None
+        for b, blk in f.blocks.items():
+            for e in blk.elems:
+                n = f.node(e)
+                if n['k'] == 'DeclStmt' and any('init' in v and any(x['k'] == 'LambdaExpr' and x.get('lambda') in push_lams
+                                                                    for x in f.walk(v['init'])) for v in n.get('vars', [])):
+                    start = (b, blk.elems.index(e))
+        if start is None:
+            raise AnalysisBroken('R-FLT: the closure that pushes a value entry was not found in scan_border')
+        # the loop over the ranks: the innermost natural loop around the start block; its header = next entry
+        dom = dominators(f)
+        preds = f.preds()
+        heads = []
+        for u in dom:
+            for h in f.blocks[u].succ:
+                if h is not None and h in dom.get(u, ()):
+                    body = {h, u}
+                    work = [u] if u != h else []
+                    while work:
+                        x = work.pop()
+                        for (pb, _) in preds.get(x, []):
+                            if pb not in body and pb in dom:
+                                body.add(pb)
+                                work.append(pb)
+                    if start[0] in body:
+                        heads.append((len(body), h, body))
+        if not heads:
+            raise AnalysisBroken('R-FLT: the value path of scan_border is not inside a loop')
+        _, header, body = min(heads)
+        # slices built from an endpoint key (memcpy(&v, K.data(), ..)): flow-insensitive taint
+        taint = {}
+        for n in f.all_nodes():
+            if is_call(n, cq='memcpy'):
+                a = call_args(f, n)
+                srcs = {x.get('id') for x in f.walk(a[1]) if x['k'] == 'DeclRefExpr'} if len(a) > 1 else set()
+                src = lk if lk in srcs else (rk if rk in srcs else None)
+                if src is not None:
+                    tv = root_var(f, a[0])
+                    if tv:
+                        taint[tv] = 'L' if src == lk else 'R'
+        bad = []
+        rows = 0
+        for l in (INF, INCL, EXCL):
+            for r in (INF, INCL, EXCL):
+                for lc in (-1, 0, 1):
+                    for lsz in (3, 4, 5):
+                        for rc in (-1, 0, 1):
+                            for rsz in (3, 4, 5):
+                                keep_l = l == INF or lc < 0 or (lc == 0 and (lsz < 4 or (lsz == 4 and l == INCL)))
+                                right = 'keep' if (r == INF or rc > 0 or
+                                                   (rc == 0 and (rsz > 4 or (rsz == 4 and r == INCL)))) else 'end'
+                                if not keep_l and right == 'end':
+                                    continue        # key < l and key > r: no such key for l <= r
+                                want = 'skip' if not keep_l else right
+                                rows += 1
+                                got = _interp_filter(facts, f, start, header, body, push_lams,
+                                                     {le: l, re_: r}, lk, rk, res, taint, lc, lsz, rc, rsz)
+                                if got != want:
+                                    bad.append((l, r, lc, lsz, rc, rsz, got, want))
+        key = 'yakushima::scan_border [every instantiation]'
+        e = agg.setdefault(key, {'rows': rows, 'bad': bad, 'loc': f.loc})
+        if bad and not e['bad']:
+            e['bad'] = bad
+    for key, e in sorted(agg.items()):
+        b0 = e['bad'][0] if e['bad'] else None
+        S.ob('R-FLT', key, 'endpoint filter of a value entry (%d rows)' % e['rows'], not e['bad'],
+             'agrees with the reference order on every row' if not e['bad'] else
+             'disagrees on %d rows, e.g. l_end=%s r_end=%s: left slice comparison %+d with l_key.size() %s the entry '
+             'length, right comparison %+d with r_key.size() %s the key size: the entry is %s, the reference says %s' % (
+                 len(e['bad']), str(b0[0]).split('::')[-1], str(b0[1]).split('::')[-1], b0[2],
+                 {3: '<', 4: '==', 5: '>'}[b0[3]], b0[4], {3: '<', 4: '==', 5: '>'}[b0[5]],
+                 {'keep': 'delivered', 'skip': 'skipped', 'end': 'taken as the end of the range'}.get(b0[6], b0[6]),
+                 {'keep': 'deliver', 'skip': 'skip', 'end': 'end of the range'}[b0[7]]), loc=e['loc'],
+             detail=[str(x) for x in e['bad'][:8]] or None)
+    S.require('R-FLT', 'scan_border instantiations evaluated', len(agg), 1)
+
+
+def _interp_filter(facts, f, start, header, body, push_lams, enums, lk, rk, res, taint, lc, lsz, rc, rsz):
+    """Abstractly execute the value path for one abstract entry; 'keep' | 'skip' | 'end' | other."""
+    env = dict(enums)
+    K = 4       # entry length / size of the entry's full key (the sizes 3, 4, 5 stand for <, ==, > it)
+
+    class Unknown(Exception):
+        pass
+
+    def side_of(n):
+        for x in f.walk(n):
+            if x['k'] == 'DeclRefExpr':
+                if x.get('id') == lk or taint.get(x.get('id')) == 'L':
+                    return 'L'
+                if x.get('id') == rk or taint.get(x.get('id')) == 'R':
+                    return 'R'
+        return None
+
+    def ev(n):
+        n = f.strip(n, casts=True)
+        if n is None:
+            raise Unknown()
+        k = n['k']
+        if 'cv' in n and k != 'DeclRefExpr':
+            return int(n['cv'])
+        if k == 'DeclRefExpr':
+            if n.get('dk') == 'enum':
+                return n['id']
+            if n['id'] in env:
+                v = env[n['id']]
+                if isinstance(v, Unknown):
+                    raise Unknown()
+                return v
+            ty = (n.get('ty') or '').replace('const ', '')
+            if ty == 'bool':
+                return 0                      # direction flag / "pushed" flag: forward scan, nothing pushed
+            if ty in ('unsigned char',):
+                return K                      # the entry's key length
+            if ty in ('unsigned long', 'std::size_t') and n.get('dk') == 'parm':
+                return 0                      # max_size: unlimited
+            t2 = ty.rstrip()
+            if t2.endswith('const'):
+                t2 = t2[:-5].rstrip()
+            if t2.endswith('*'):
+                return 0                      # optional out-parameters: absent
+            raise Unknown()
+        if k in ('IntegerLiteral', 'CXXBoolLiteralExpr'):
+            return int(n['val'])
+        if k in ('CXXNullPtrLiteralExpr', 'GNUNullExpr'):
+            return 0
+        if k == 'BinaryOperator':
+            a, b = f.ch(n)
+            op = n['op']
+            if op == '&&':
+                return 1 if (ev(a) and ev(b)) else 0
+            if op == '||':
+                return 1 if (ev(a) or ev(b)) else 0
+            if op == '=':
+                v = ev(b)
+                x = f.strip(a)
+                if x is not None and x['k'] == 'DeclRefExpr':
+                    env[x['id']] = v
+                return v
+            x, y = ev(a), ev(b)
+            return {'==': int(x == y), '!=': int(x != y), '<': int(x < y), '>': int(x > y), '<=': int(x <= y),
+                    '>=': int(x >= y), '+': x + y if isinstance(x, int) else None,
+                    '-': x - y if isinstance(x, int) else None}[op]
+        if k == 'UnaryOperator' and n['op'] == '!':
+            return 0 if ev(f.ch(n)[0]) else 1
+        if k == 'UnaryOperator' and n['op'] == '-':
+            return -ev(f.ch(n)[0])
+        if k == 'ConditionalOperator':
+            c, a, b = f.ch(n)
+            return ev(a) if ev(c) else ev(b)
+        if k in CALL_KINDS:
+            cq = n.get('cq') or ''
+            cn = n.get('cn')
+            if cq == 'memcmp':
+                a = call_args(f, n)
+                s0, s1 = side_of(a[0]), side_of(a[1])
+                if s0 in ('L', 'R') and s1 is None:
+                    return lc if s0 == 'L' else rc
+                if s1 in ('L', 'R') and s0 is None:
+                    return -(lc if s1 == 'L' else rc)
+                raise AnalysisBroken('R-FLT: memcmp at %s does not compare an endpoint key with the entry' % n.get('loc'))
+            if cn == 'size':
+                rv = root_var(f, call_recv(f, n))
+                if rv == lk:
+                    return lsz
+                if rv == rk:
+                    return rsz
+                if rv == res:
+                    return 0
+                return K                       # the entry's own key
+            if cn == 'empty':
+                rv = root_var(f, call_recv(f, n))
+                if rv == res:
+                    return 1
+                return 0
+            if cq.startswith('std::min') or cq.startswith('std::max'):
+                vals = [ev(a) for a in call_args(f, n)]
+                return min(vals) if cq.startswith('std::min') else max(vals)
+            if n['k'] == 'CXXOperatorCallExpr' and n.get('callee') in push_lams:
+                raise _Outcome('keep')
+            raise Unknown()
+        raise Unknown()
+
+    b, idx = start
+    steps = 0
+    first = True
+    loop_exits = {x for x in f.blocks[header].succ if x is not None and x not in body}
+    while True:
+        steps += 1
+        if steps > 400:
+            raise AnalysisBroken('R-FLT: the value path of scan_border does not terminate abstractly')
+        if not first and b == header:
+            return 'skip'
+        if not first and b not in body and b in loop_exits:
+            return 'left-the-loop'
+        blk = f.blocks[b]
+        try:
+            for e in blk.elems[idx if first else 0:]:
+                n = f.node(e)
+                if n['k'] == 'ReturnStmt':
+                    rc_ = R.const_of(f, f.ch(n)[0]) if f.ch(n) else None
+                    return 'end' if rc_ == 'yakushima::status::OK_SCAN_END' else 'return %s' % rc_
+                if n['k'] == 'CXXOperatorCallExpr' and n.get('callee') in push_lams:
+                    return 'keep'
+                if n['k'] == 'DeclStmt':
+                    for v in n.get('vars', []):
+                        if 'init' in v:
+                            try:
+                                env[v['id']] = ev(v['init'])
+                            except Unknown:
+                                env[v['id']] = Unknown()
+                elif n['k'] == 'BinaryOperator' and n.get('op') == '=':
+                    try:
+                        ev(n)
+                    except Unknown:
+                        x = f.strip(f.ch(n)[0])
+                        if x is not None and x['k'] == 'DeclRefExpr':
+                            env[x['id']] = Unknown()
+        except _Outcome as o:
+            return o.what
+        first = False
+        if not blk.succ:
+            return 'fell-off'
+        if len(blk.succ) == 1:
+            b = blk.succ[0]
+        else:
+            if not blk.term or 'cond' not in blk.term:
+                raise AnalysisBroken('R-FLT: unmodelled terminator at %s' % (blk.term or {}).get('loc'))
+            try:
+                c = ev(blk.term['cond'])
+            except _Outcome as o:
+                return o.what
+            except Unknown:
+                raise AnalysisBroken('R-FLT: the filter branches on a value outside the abstraction at %s' %
+                                     (blk.term.get('loc'),))
+            b = blk.succ[0] if c else blk.succ[1]
+        if b is None:
+            raise AnalysisBroken('R-FLT: pruned edge taken')
+
+
+class _Outcome(Exception):
+    def __init__(self, what):
+        self.what = what
+
+
+# ---------------------------------------------------------------------------
 # R-MAX: the truncation test dominates every further growth
 # ---------------------------------------------------------------------------
 
@@ -889,6 +1164,7 @@ def run(S):
     rule_tab(S)
     rule_max(S)
     rule_lft(S)
+    rule_flt(S)
     from checks import keylen, C18
     keylen.rule_narrow(S)
     C18.rule_slice(S)
